@@ -107,6 +107,17 @@ def flat_phi(e):
     return out
 
 
+def _plain(txt):
+    """an index text with borrowing views looked through: len(as_ref(p1)) reads len(p1)"""
+    import re
+    for _ in range(6):
+        t2 = re.sub(r'\b(?:as_ref|borrow|deref|as_slice|as_deref)\(([^()]*)\)', r'\1', txt)
+        if t2 == txt:
+            break
+        txt = t2
+    return txt
+
+
 def is_min_len(e):
     """min(len(f1), len(f2)) of the two parameters"""
     for y in e.walk():
@@ -174,7 +185,8 @@ def operand_info(F, root, body, x):
         if y.kind == 'place' and y.root[0] == 'param' and body.kind != 'Closure':
             idx = [str(f) for f in y.fields if str(f).startswith('[')]
             if idx:
-                return y.root, idx[0], 'min(len(p1), len(p2))' in idx[0] or 'min(len(p2), len(p1))' in idx[0]
+                ix = _plain(idx[0])
+                return y.root, idx[0], 'min(len(p1), len(p2))' in ix or 'min(len(p2), len(p1))' in ix
     k, chain, role = elem_key(F, root, body, x)
     if k is None or chain is None:
         return None, None, False
@@ -213,18 +225,20 @@ def reductions(F, b):
             v = sym(v)
             from_zero = False
             if hb.kind == 'Closure':
-                from lib import adaptor_of_closure
-                pb, ac = adaptor_of_closure(F, b, hb)
+                from lib import adaptors_of_closure
                 ret = sym(ExprBuilder(hb).place(0, ()))
-                if ac is not None and ac.name in ('fold', 'try_fold') and len(ac.args) >= 3:
-                    init = ExprBuilder(pb).arg(ac, 1)
-                    from_zero = ret.kind == 'bin' and ret.name == 'Add' and init.kind == 'const' and \
-                        str(init.const.get('v')) in ('0.0', '0') and any(
-                            y.kind == 'place' and y.root == ('param', 2) for y in ret.args[0].walk()) 
-                elif ac is not None and ac.name == 'map':
-                    # map(term).sum() / fold(0, +)
-                    from_zero = True
-                out.append({'call': rc, 'owner': hb, 'term': v, 'from_zero': from_zero, 'adaptor': ac, 'parent': pb})
+                # (one record per adaptor call that runs this closure: a helper spliced in twice shares its closure)
+                for pb, ac in (adaptors_of_closure(F, b, hb) or [(None, None)]):
+                    from_zero = False
+                    if ac is not None and ac.name in ('fold', 'try_fold') and len(ac.args) >= 3:
+                        init = ExprBuilder(pb).arg(ac, 1)
+                        from_zero = ret.kind == 'bin' and ret.name == 'Add' and init.kind == 'const' and \
+                            str(init.const.get('v')) in ('0.0', '0') and any(
+                                y.kind == 'place' and y.root == ('param', 2) for y in ret.args[0].walk())
+                    elif ac is not None and ac.name == 'map':
+                        # map(term).sum() / fold(0, +)
+                        from_zero = True
+                    out.append({'call': rc, 'owner': hb, 'term': v, 'from_zero': from_zero, 'adaptor': ac, 'parent': pb})
             else:
                 adds = []
                 for i in sorted(hb.live_blocks()):
@@ -366,6 +380,14 @@ def cosine_rule(ctx, R):
     feats = []
     for _k, ops, red in norms:
         f_, key, bounded = ops[0]
+        if red.get('adaptor') is not None and red.get('parent') is not None:
+            # the feature this norm ranges over is what THIS adaptor call iterates (a shared helper's closure runs under
+            # several adaptor calls, one per feature)
+            from lib import subst_upvars as _su
+            ch_ = _su(F, red['parent'], ExprBuilder(red['parent']).arg(red['adaptor'], 0))
+            f2_, b2_ = feature_of(ch_)
+            if f2_ is not None:
+                f_, bounded = f2_, b2_
         feats.append(f_)
         n += 2
         ctx.check(bounded, R, b, 'cosine:norm-over-the-common-prefix', str(f_),
